@@ -232,6 +232,47 @@ def run_commands(ctx: Ctx, apiv: tuple[int, int], methods: list[str], framing: s
             res.inconclusive.append("harness: " + sim.harness_errors[0][-300:])
 
 
+def run_same_key_sequences(ctx: Ctx, apiv: tuple[int, int], methods: list[str], framing: str) -> None:
+    """The SAME entity key (and the same required argument) used again and again with different subsets of the optional arguments - everything,
+    then nothing, then one at a time, then everything again: an omitted argument is at its default whatever an EARLIER call for that key carried."""
+    res = ctx.res
+    vals = values()
+    m = M()
+    with Sim() as sim:
+        s = Session(sim, apiv, framing)
+        idx = 0
+        for method in methods:
+            if method in FIXED:
+                continue
+            opt = vals[method]
+            names = list(opt)
+            if not names:
+                continue
+            reqs = REQUIRED[method](m) if method in REQUIRED else [None]
+            for rq in reqs:
+                idx += 1
+                if not ctx.mine(idx):
+                    continue
+                required = {rq[0]: rq[1]} if rq else {}
+                key = 4711
+                plan: list[tuple[tuple[str, ...], int]] = [(tuple(names), 1), ((), 0)] + [((n,), 2) for n in names] + [((), 1), (tuple(names), 2), ((), 2)] + \
+                    [(tuple(x for x in names if x != n), 1) for n in names] + [((), 0)]
+                for subset, vc in plan:
+                    supplied = {a: opt[a][vc] for a in subset}
+                    exp = expected_request(method, key, supplied, required, apiv)
+                    n0 = len(s.dev.conn.received)
+                    if method == "media_player_command":
+                        s.cli.media_player_command(key, **supplied)
+                    elif required:
+                        getattr(s.cli, method)(key, *required.values(), **supplied)
+                    else:
+                        getattr(s.cli, method)(key, **supplied)
+                    judge(ctx, s, n0, method, exp, supplied, required, "same-key-" + ("falsy", "typical", "extreme")[vc], apiv, framing)
+                    res.count("calls/same-key-sequence")
+        if sim.harness_errors:
+            res.inconclusive.append("harness: " + sim.harness_errors[0][-300:])
+
+
 def judge(ctx: Ctx, s: Session, n0: int, method: str, exp: Any, supplied: dict[str, Any], required: dict[str, Any], vclass: str,
           apiv: tuple[int, int], framing: str) -> None:
     res = ctx.res
@@ -399,6 +440,21 @@ def run_two_clients(ctx: Ctx, va: tuple[int, int], vb: tuple[int, int]) -> None:
                     n0 = len(dev.conn.received)
                     getattr(cli, method)(77, **supplied)
                     judge(ctx, shim, n0, method, expq, supplied, {}, "two-clients", apiv, "plain")
+                # same entity key and command on both clients; only one of them supplies the optional argument in this round
+                for method, reqd, optional in (("lock_command", {"command": m.LockCommand.UNLOCK}, {"code": f"{1000 + rnd}"}),
+                                               ("alarm_control_panel_command", {"command": m.AlarmControlPanelCommand.DISARM}, {"code": f"{2000 + rnd}"}),
+                                               ("siren_command", {}, {"tone": "alarm", "volume": 0.5}), ("select_command", {"state": "a"}, {}),
+                                               ("media_player_command", {}, {"media_url": "http://x/y.mp3"})):
+                    if method not in REQUEST:
+                        continue
+                    supplied = optional if (rnd + k) % 2 == 0 else {}
+                    expq = expected_request(method, 78, supplied, reqd, apiv)
+                    n0 = len(dev.conn.received)
+                    try:
+                        getattr(cli, method)(78, *reqd.values(), **supplied)
+                    except TypeError:
+                        continue
+                    judge(ctx, shim, n0, method, expq, supplied, reqd, "two-clients", apiv, "plain")
                 if len(pairs[1 - k][1].conn.received) != other_n0:
                     res.violation("C15/request-on-the-other-clients-session", f"commands on client {k} produced {len(pairs[1 - k][1].conn.received) - other_n0} "
                                   "requests at the OTHER client's device", case)
@@ -425,7 +481,9 @@ def shard(ctx: Ctx) -> None:
     for apiv in ((1, 4), (1, 5)):
         run_commands(ctx, apiv, ["climate_command", "fan_command"], "plain")
     run_commands(ctx, (1, 10), ["fan_command", "siren_command", "media_player_command", "cover_command", "lock_command", "switch_command"], "noise")
+    run_same_key_sequences(ctx, (1, 10), list(REQUEST), "plain")
     if thr:
+        run_same_key_sequences(ctx, (1, 4), list(REQUEST), "noise")
         for apiv in ((1, 2), (1, 3), (1, 9), (2, 0)):
             run_commands(ctx, apiv, all_methods, "plain", stride=3)
     if ctx.shard < 7:
